@@ -79,12 +79,13 @@ class ExtractSingle(Contract):
     abstract = True
     self_class = ("py7zr.py7zr", "Worker")
     # Worker.decompress is used here through the facts stated in `assumptions` (hook on its call), its contract is in wdecompress.py
-    opaque = ("py7zr:Worker.decompress",)
-    pure = ("get", "is_path_valid", "joinpath", "pathlib.Path", "str", "decode")
+    opaque = ("py7zr:Worker.decompress", "helpers:is_path_valid")  # is_path_valid: lexical containment, its own contract in paths.py
+    pure = ("get", "is_path_valid", "joinpath", "pathlib.Path", "pathlib.Path.cwd", "resolve", "str", "decode")
     stable_attrs = STABLE
     track_raises = False
     assumptions = (
         "abstract mode: ArchiveFile properties / pathlib attributes (%s) are stable during the call; dict.get, is_path_valid, joinpath, pathlib.Path, str are pure" % ", ".join(STABLE),
+        "filesystem: Path.resolve() of an output path's parent denotes the same location at the containment check and at the effect that follows it in the same iteration (no concurrent modification of the destination; mkdir(parents, exist_ok) only creates the missing tail)",
         "platform: sys.platform == 'linux' (the junction branch is dead there)",
         "Worker.decompress consumes exactly `size` bytes of the folder stream on normal return (its own contract, C01/C05)",
     )
@@ -124,6 +125,26 @@ class ExtractSingle(Contract):
             items = c.view(jc) if not isinstance(jc, SOpq) else jc
             eng.ghost["off"] = eng.ghost["off"] + SUMJ(items)
 
+        def is_root(c, t):
+            """t is the resolved destination computed at entry: (Path.cwd() if path is None else Path(path)).resolve()"""
+            eng = c.eng
+            path = c.bound["path"]
+            for r in [x for x in eng.trace if x.kind == "pure" and x.name.endswith("resolve") and x.result is t]:
+                src = r.recv
+                for m in [x for x in eng.trace if x.kind == "pure" and x.result is src]:
+                    if m.name.endswith("pathlib.Path.cwd") and not m.args:
+                        return eq(path, None)
+                    if m.name.endswith("pathlib.Path") and len(m.args) == 1 and m.args[0] is path:
+                        return Not(eq(path, None))
+            return False
+
+        def resolved_parent(c, t, fileish):
+            """formula: t is fileish.parent.resolve()"""
+            good = False
+            for r in [x for x in c.eng.trace if x.kind == "pure" and x.name.endswith("resolve") and x.result is t]:
+                good = Or(good, eq(r.recv, attr(fileish, "parent")))
+            return good
+
         def sink(kind):
             def h(c, ev):
                 eng = c.eng
@@ -134,24 +155,30 @@ class ExtractSingle(Contract):
                 recv = ev.recv
                 ok = Or(eq(recv, fileish), eq(recv, attr(fileish, "parent"))) if isinstance(fileish, SOpq) else False
                 c.oblig("assert", "sink-uses-registered-path@%s" % kind, ok, props=("C03",))
+                if not isinstance(fileish, SOpq):
+                    return
+                start = eng.ghost.get("iter_start", 0)
+                pv = [e for e in eng.trace[start:] if e.kind == "pure" and e.name.endswith("is_path_valid")]
+                # C03 (links made by earlier members): the REAL parent directory of the output path was checked against
+                # the REAL destination in this iteration, before the first filesystem effect on it
+                good = False
+                for e in pv:
+                    good = Or(good, And(truthy(e.result), resolved_parent(c, e.args[0], fileish), is_root(c, e.args[1])))
+                # (an in-memory writer has no filesystem effect)
+                memio = SBool(V.uf("isinstance_MemIO", V.vsort(), z3.BoolSort())(fileish.t))
+                c.oblig("assert", "real-parent-inside-destination-checked@%s" % kind, Or(memio, good), props=("C03",))
                 if kind == "symlink_to":
-                    path = c.bound["path"]
-                    pv = [e for e in eng.trace if e.kind == "pure" and e.name.endswith("is_path_valid")]
                     good = False
                     for e in pv:
-                        tgt = e.args[0]
-                        # the check was made on  fileish.parent.joinpath(dst)  against the destination, and it held
-                        jp = [x for x in eng.trace if x.kind == "pure" and x.name == "joinpath" and x.result is tgt]
-                        if not jp:
-                            continue
-                        dst = jp[-1].args[0]
-                        mk = [x for x in eng.trace if x.kind == "pure" and x.name == "pathlib.Path" and x.result is ev.args[0]]
-                        cond = And(truthy(e.result), eq(jp[-1].recv, attr(fileish, "parent")), eq(e.args[1], path))
-                        if mk:
-                            cond = And(cond, eq(mk[-1].args[0], dst))
-                        else:
-                            cond = And(cond, eq(ev.args[0], dst))
-                        good = Or(good, cond)
+                        # the check was made on  fileish.parent.resolve().joinpath(dst).resolve()  against the resolved
+                        # destination, it held, and the link text is that dst
+                        for r2 in [x for x in eng.trace if x.kind == "pure" and x.name.endswith("resolve") and x.result is e.args[0]]:
+                            for jp in [x for x in eng.trace if x.kind == "pure" and x.name.endswith("joinpath") and x.result is r2.recv]:
+                                dst = jp.args[0]
+                                mk = [x for x in eng.trace if x.kind == "pure" and x.name.endswith("pathlib.Path") and x.result is ev.args[0]]
+                                cond = And(truthy(e.result), resolved_parent(c, jp.recv, fileish), is_root(c, e.args[1]))
+                                cond = And(cond, eq(mk[-1].args[0], dst)) if mk else And(cond, eq(ev.args[0], dst))
+                                good = Or(good, cond)
                     c.oblig("assert", "symlink-guarded@symlink_to", good, props=("C03",))
 
             return h
@@ -260,7 +287,7 @@ class WorkerCheck(Contract):
     props = ("C04", "C09")
     abstract = True
     self_class = ("py7zr.py7zr", "Worker")
-    opaque = ("py7zr:Worker.decompress",)
+    opaque = ("py7zr:Worker.decompress", "helpers:is_path_valid")  # is_path_valid: lexical containment, its own contract in paths.py
     stable_attrs = STABLE
     pure = ("str",)
 
